@@ -108,6 +108,18 @@ def layouts(tier):
             add(4, dw, 2, [_reg(dw + 1, "rw"), _reg(1, "rw")], (None, 0))
             for regs in triples:
                 add(4, dw, 0, [dict(r, addr=None if r["addr"] is None else r["addr"] + 3) for r in regs], (None, 0))
+    if not quick:
+        # systematic: EVERY placement of two registers on 3 address bits (widths 1 / dw+1 / 2*dw+1, four access
+        # pairings, implicit or any explicit address each), three sharing limits; and three registers of
+        # widths 1 / dw+1 at every pair of explicit addresses for the first two
+        for dw in (1, 2):
+            ws = (1, dw + 1, 2 * dw + 1)
+            for (w0, w1), (a0, a1) in itertools.product(itertools.product(ws, ws), (("rw", "rw"), ("r", "w"), ("w", "r"), ("rw", "r"))):
+                for addr0, addr1 in itertools.product([None] + list(range(8)), repeat=2):
+                    add(3, dw, 0, [_reg(w0, a0, addr0), _reg(w1, a1, addr1)], (None, 0, 1))
+            for w0, w1, w2 in itertools.product((1, dw + 1), repeat=3):
+                for addr0, addr1 in itertools.product(range(0, 6), repeat=2):
+                    add(3, dw, 0, [_reg(w0, "rw", addr0), _reg(w1, "rw", addr1), _reg(w2, "rw", None)], (None, 0))
     # de-duplicate and keep what the real MemoryMap accepts
     seen, keep = set(), []
     for l in out:
